@@ -123,6 +123,8 @@ OpensV(k) ==
                  f.hdrok /\ r.src = f.hsrc /\ r.idx = k - 1 /\ ~r.tam /\ r.lenf = r.plen
             [] Variant = "NonceFromFile" ->   \* nonce taken from the stored counter field
                  f.hdrok /\ r.src = f.hsrc /\ r.ctrok /\ ~r.tam /\ r.flagf = r.last /\ r.lenf = r.plen
+            [] Variant = "HeaderNotChecked" ->   \* chunk key independent of the header / password
+                 r.src = f.hsrc /\ r.idx = k - 1 /\ ~r.tam /\ r.flagf = r.last /\ r.lenf = r.plen
             [] OTHER -> Opens(f, k)
 
 \* the fields the decryptor reads for the record at position j (meaningful only if it is there)
@@ -141,7 +143,11 @@ RDirective(n) == LET full == Min(need, Avail)
 AfterRead ==
   CASE pc = "hdr" ->
          IF part < Len(HdrParts)
-         THEN /\ part' = part + 1 /\ need' = HdrParts[part + 1] /\ pc' = "hdr" /\ UNCHANGED res
+         THEN \* a modified header may be refused as soon as the part carrying the change has been
+              \* read (bad magic after part 1), or only once all of it is there
+              \/ /\ part' = part + 1 /\ need' = HdrParts[part + 1] /\ pc' = "hdr" /\ UNCHANGED res
+              \/ /\ ~f.hdrok /\ Variant # "HeaderNotChecked"
+                 /\ pc' = "end" /\ res' = "err_hdr" /\ UNCHANGED <<part, need>>
          ELSE \* header complete: magic check, handshake / key derivation
               IF f.hdrok \/ Variant = "HeaderNotChecked"
               THEN /\ pc' = "rhdr" /\ need' = 16 /\ UNCHANGED <<part, res>>
@@ -274,6 +280,9 @@ FairSpec == Spec /\ WF_vars(Start) /\ WF_vars(Decrypt)
 \* C04: what has been released is a prefix of the authentic plaintext made of chunks that were
 \* authentic in position and completely consumed
 ReleasedIsAuthenticPrefix == relOk /\ out <= AuthC(f, H, pos)
+
+\* C02 / C05: under a wrong key or password (or with a modified header) nothing is released
+WrongKeyReleasesNothing == ~f.hdrok => (out = 0 /\ res # "ok")
 
 \* C03 / C04: success only for a complete authentic message, completely written, end of data seen
 AcceptMeansComplete == res = "ok" =>
